@@ -215,7 +215,7 @@ func min(a, b int) int {
 // ---------------------------------------------------------------------------
 
 // Writer is the writing end. Kind: 0 accept everything; 1 refuse (0,E);
-// 2 accept K bytes of the first write then fail (K,E). It never returns a short
+// 2 accept K bytes in total (across calls) then fail (k,E). It never returns a short
 // count with a nil error (io.Writer forbids that).
 type Writer struct {
 	c     *sim.Ctx
@@ -238,15 +238,16 @@ func (w *Writer) Write(p []byte) (int, error) {
 		w.c.Count("fault.write-refuse")
 		return 0, w.Err
 	case 2:
-		if w.Calls == 1 && w.K < len(p) {
-			w.Buf = append(w.Buf, p[:w.K]...)
-			w.c.Ev("write-partial", int64(len(p)), int64(w.K), 2)
+		// accepts K bytes in total, across however many Write calls, then fails
+		room := w.K - len(w.Buf)
+		if room < len(p) {
+			if room < 0 {
+				room = 0
+			}
+			w.Buf = append(w.Buf, p[:room]...)
+			w.c.Ev("write-partial", int64(len(p)), int64(room), 2)
 			w.c.Count("fault.write-accept-k")
-			return w.K, w.Err
-		}
-		if w.Calls > 1 {
-			w.c.Ev("write-refuse", int64(len(p)), 0, 2)
-			return 0, w.Err
+			return room, w.Err
 		}
 	}
 	w.Buf = append(w.Buf, p...)
